@@ -44,6 +44,7 @@ package parser
 //@ modifies p.peekCount, p.buffer, strmLeft, strmDone, strmExp, strmLastT, strmN
 //@ ensures PInv(p) && SInv() && ErrOK(result) && avail(p) < old(avail(p))
 //@ ensures result == nil ==> p.peekCount == 0 && strmLastT == expected && p.buffer[0].Type == expected && TokOK(p.buffer[0]) && (expected != token.EOF && expected != token.ERROR ==> !strmDone)
+//@ ensures [F1] pcur(p) == old(pcur(p)) + 1 && (result == nil ==> strmAll[old(pcur(p))].Type == expected)
 
 //@ func (*Parser).parseFunction
 //@ requires PInv(p) && SInv() && Ready(p)
@@ -52,9 +53,18 @@ package parser
 //@ ensures result1 == nil ==> !strmDone && p.peekCount == 0
 //@ ensures [wellformed-nodes] result1 == nil ==> ArgsOK(result0.Arguments)
 //@ ensures [verbatim] result1 == nil ==> result0.Name.Name == ident.Value && result0.NodeType == ast.NodeFunction
+// F1: '(' then exactly the STRING / IDENT tokens up to ')' as arguments, in order, verbatim
+//@ ensures [F1,parenthesised-list] result1 == nil ==> pcur(p) > old(pcur(p)) + 1 && strmAll[old(pcur(p))].Type == token.LPAREN && strmAll[pcur(p) - 1].Type == token.RPAREN
+//@ ensures [F1,only-arguments-and-commas] result1 == nil ==> forall m int :: {strmAll[m]} old(pcur(p)) + 1 <= m && m < pcur(p) - 1 ==> isArgTok(strmAll[m]) || strmAll[m].Type == token.COMMA
+//@ ensures [F1,one-node-per-argument-token-in-order] result1 == nil ==> len(result0.Arguments) == nArgs(strmAll, old(pcur(p)) + 1, pcur(p) - 1) && forall k int :: {result0.Arguments[k]} 0 <= k && k < len(result0.Arguments) ==> nodeIsTok(result0.Arguments[k], strmAll[argIx(strmAll, old(pcur(p)) + 1, k)])
 //@ loop 0: invariant PInv(p) && SInv() && p.peekCount == 0 && TokOK(next) && next.Type == strmLastT && avail(p) <= old(avail(p))
 //@ loop 0: invariant ArgsOK(args)
+//@ loop 0: invariant [F1] pcur(p) > old(pcur(p)) + 1 && next == strmAll[pcur(p) - 1] && strmAll[old(pcur(p))].Type == token.LPAREN
+//@ loop 0: invariant [F1] forall m int :: {strmAll[m]} old(pcur(p)) + 1 <= m && m < pcur(p) - 1 ==> isArgTok(strmAll[m]) || strmAll[m].Type == token.COMMA
+//@ loop 0: invariant [F1] len(args) == nArgs(strmAll, old(pcur(p)) + 1, pcur(p) - 1) && forall k int :: {args[k]} 0 <= k && k < len(args) ==> nodeIsTok(args[k], strmAll[argIx(strmAll, old(pcur(p)) + 1, k)])
 //@ loop 0: decreases avail(p)
+//@ at call next#1: use nArgs_unfold(strmAll, old(pcur(p)) + 1, pcur(p))
+//@ at call next#1: use argIx_at(strmAll, old(pcur(p)) + 1, pcur(p) - 1)
 
 //@ func (*Parser).parseAssign
 
@@ -64,6 +74,12 @@ package parser
 //@ ensures result1 == nil ==> Ready(p)
 //@ ensures [wellformed-nodes] result1 == nil ==> result0.Value != nil && (typeIs(result0.Value, ast.Function) ==> ArgsOK(unbox(result0.Value, ast.Function).Arguments))
 //@ ensures [verbatim] result1 == nil ==> result0.Name.Name == ident.Value && result0.NodeType == ast.NodeAssign
+// F1: ':=' then a STRING (string value), an IDENT followed by '(' (builtin call with its argument list) or a bare IDENT
+//@ ensures [F1,declare] result1 == nil ==> strmAll[old(pcur(p))].Type == token.DECLARE
+//@ ensures [F1,string-value] result1 == nil && strmAll[old(pcur(p)) + 1].Type == token.STRING ==> pcur(p) == old(pcur(p)) + 2 && nodeIsTok(result0.Value, strmAll[old(pcur(p)) + 1])
+//@ ensures [F1,identifier-value] result1 == nil && strmAll[old(pcur(p)) + 1].Type == token.IDENT && strmAll[old(pcur(p)) + 2].Type != token.LPAREN ==> pcur(p) == old(pcur(p)) + 2 && nodeIsTok(result0.Value, strmAll[old(pcur(p)) + 1])
+//@ ensures [F1,call-value] result1 == nil && strmAll[old(pcur(p)) + 1].Type == token.IDENT && strmAll[old(pcur(p)) + 2].Type == token.LPAREN ==> typeIs(result0.Value, ast.Function) && unbox(result0.Value, ast.Function).Name.Name == strmAll[old(pcur(p)) + 1].Value && strmAll[pcur(p) - 1].Type == token.RPAREN && len(unbox(result0.Value, ast.Function).Arguments) == nArgs(strmAll, old(pcur(p)) + 3, pcur(p) - 1) && (forall k int :: {unbox(result0.Value, ast.Function).Arguments[k]} 0 <= k && k < len(unbox(result0.Value, ast.Function).Arguments) ==> nodeIsTok(unbox(result0.Value, ast.Function).Arguments[k], strmAll[argIx(strmAll, old(pcur(p)) + 3, k)]))
+//@ ensures [F1,value-kinds] result1 == nil ==> strmAll[old(pcur(p)) + 1].Type == token.STRING || strmAll[old(pcur(p)) + 1].Type == token.IDENT
 
 //@ func (*Parser).parseTaskDependencies
 //@ requires PInv(p) && SInv() && Ready(p)
@@ -92,7 +108,18 @@ package parser
 //@ ensures [located] ErrOK(result1)
 //@ ensures result1 == nil ==> Ready(p)
 //@ ensures [wellformed-nodes] result1 == nil ==> ArgsOK(result0)
+// F1: no '->' : no outputs and nothing consumed; '->' followed by one STRING / IDENT: that output;
+// '->' '(' ... ')': exactly the STRING / IDENT tokens in between, in order, verbatim
+//@ ensures [F1,no-arrow-no-outputs] result1 == nil && strmAll[old(pcur(p))].Type != token.OUTPUT ==> pcur(p) == old(pcur(p)) && len(result0) == 0
+//@ ensures [F1,bare-single-output] result1 == nil && strmAll[old(pcur(p))].Type == token.OUTPUT && isArgTok(strmAll[old(pcur(p)) + 1]) ==> pcur(p) == old(pcur(p)) + 2 && len(result0) == 1 && nodeIsTok(result0[0], strmAll[old(pcur(p)) + 1])
+//@ ensures [F1,parenthesised-outputs] result1 == nil && strmAll[old(pcur(p))].Type == token.OUTPUT && strmAll[old(pcur(p)) + 1].Type == token.LPAREN ==> pcur(p) > old(pcur(p)) + 2 && strmAll[pcur(p) - 1].Type == token.RPAREN && len(result0) == nArgs(strmAll, old(pcur(p)) + 2, pcur(p) - 1) && (forall k int :: {result0[k]} 0 <= k && k < len(result0) ==> nodeIsTok(result0[k], strmAll[argIx(strmAll, old(pcur(p)) + 2, k)])) && (forall m int :: {strmAll[m]} old(pcur(p)) + 2 <= m && m < pcur(p) - 1 ==> isArgTok(strmAll[m]) || strmAll[m].Type == token.COMMA)
+//@ ensures [F1,arrow-needs-an-output] result1 == nil && strmAll[old(pcur(p))].Type == token.OUTPUT ==> isArgTok(strmAll[old(pcur(p)) + 1]) || strmAll[old(pcur(p)) + 1].Type == token.LPAREN || strmAll[old(pcur(p)) + 1].Type == token.COMMA
 //@ loop 0: invariant ArgsOK(outputs)
+//@ loop 0: invariant [F1] strmAll[old(pcur(p))].Type == token.OUTPUT && strmAll[old(pcur(p)) + 1].Type == token.LPAREN && pcur(p) > old(pcur(p)) + 2 && tok == strmAll[pcur(p) - 1]
+//@ loop 0: invariant [F1] forall m int :: {strmAll[m]} old(pcur(p)) + 2 <= m && m < pcur(p) - 1 ==> isArgTok(strmAll[m]) || strmAll[m].Type == token.COMMA
+//@ loop 0: invariant [F1] len(outputs) == nArgs(strmAll, old(pcur(p)) + 2, pcur(p) - 1) && forall k int :: {outputs[k]} 0 <= k && k < len(outputs) ==> nodeIsTok(outputs[k], strmAll[argIx(strmAll, old(pcur(p)) + 2, k)])
+//@ at call next#3: use nArgs_unfold(strmAll, old(pcur(p)) + 2, pcur(p))
+//@ at call next#3: use argIx_at(strmAll, old(pcur(p)) + 2, pcur(p) - 1)
 //@ loop 0: invariant PInv(p) && SInv() && p.peekCount == 0 && TokOK(tok) && tok.Type == strmLastT && TokOK(next) && avail(p) <= old(avail(p))
 //@ loop 0: decreases avail(p)
 
@@ -101,7 +128,11 @@ package parser
 //@ modifies p.peekCount, p.buffer, strmLeft, strmDone, strmExp, strmLastT, strmN
 //@ ensures PInv(p) && SInv() && ErrOK(result1) && avail(p) <= old(avail(p))
 //@ ensures result1 == nil ==> !strmDone && p.peekCount == 0
+// F1: the commands are exactly the tokens between the braces (all COMMAND tokens), in order, verbatim
+//@ ensures [F1,body-ends-at-the-closing-brace] result1 == nil ==> pcur(p) > old(pcur(p)) && strmAll[pcur(p) - 1].Type == token.RBRACE
+//@ ensures [F1,one-command-per-token-in-order] result1 == nil ==> len(result0) == pcur(p) - 1 - old(pcur(p)) && forall k int :: {result0[k]} 0 <= k && k < len(result0) ==> strmAll[old(pcur(p)) + k].Type == token.COMMAND && result0[k].Command == strmAll[old(pcur(p)) + k].Value && result0[k].NodeType == ast.NodeCommand
 //@ loop 0: invariant PInv(p) && SInv() && p.peekCount == 0 && !strmDone && strmExp == 3 && avail(p) <= old(avail(p))
+//@ loop 0: invariant [F1] pcur(p) >= old(pcur(p)) && len(commands) == pcur(p) - old(pcur(p)) && forall k int :: {commands[k]} 0 <= k && k < len(commands) ==> strmAll[old(pcur(p)) + k].Type == token.COMMAND && commands[k].Command == strmAll[old(pcur(p)) + k].Value && commands[k].NodeType == ast.NodeCommand
 //@ loop 0: decreases avail(p)
 
 //@ func (*Parser).parseTask
@@ -110,6 +141,14 @@ package parser
 //@ ensures PInv(p) && SInv() && ErrOK(result1) && avail(p) <= old(avail(p))
 //@ ensures result1 == nil ==> Ready(p)
 //@ ensures [wellformed-nodes] result1 == nil ==> ArgsOK(result0.Dependencies) && ArgsOK(result0.Outputs)
+// F1: the task node is determined by its tokens: name '(' dependencies ')' [outputs] '{' commands '}'
+//@ modifies tkDepEnd, tkOutEnd
+//@ at return parseTaskDependencies#0: ghost tkDepEnd = pcur(p) - 1
+//@ at return parseTaskOutputs#0: ghost tkOutEnd = pcur(p)
+//@ ensures [F1,header] result1 == nil ==> result0.Name.Name == strmAll[old(pcur(p))].Value && result0.Docstring == doc && result0.NodeType == ast.NodeTask && strmAll[old(pcur(p)) + 1].Type == token.LPAREN
+//@ ensures [F1,dependencies] result1 == nil ==> old(pcur(p)) + 2 <= tkDepEnd && strmAll[tkDepEnd].Type == token.RPAREN && len(result0.Dependencies) == nArgs(strmAll, old(pcur(p)) + 2, tkDepEnd) && (forall k int :: {result0.Dependencies[k]} 0 <= k && k < len(result0.Dependencies) ==> nodeIsTok(result0.Dependencies[k], strmAll[argIx(strmAll, old(pcur(p)) + 2, k)])) && (forall m int :: {strmAll[m]} old(pcur(p)) + 2 <= m && m < tkDepEnd ==> isArgTok(strmAll[m]) || strmAll[m].Type == token.COMMA)
+//@ ensures [F1,outputs] result1 == nil ==> outsFromToks(result0.Outputs, strmAll, tkDepEnd + 1, tkOutEnd)
+//@ ensures [F1,body] result1 == nil ==> strmAll[tkOutEnd].Type == token.LBRACE && pcur(p) > tkOutEnd + 1 && strmAll[pcur(p) - 1].Type == token.RBRACE && len(result0.Commands) == pcur(p) - 2 - tkOutEnd && forall k int :: {result0.Commands[k]} 0 <= k && k < len(result0.Commands) ==> strmAll[tkOutEnd + 1 + k].Type == token.COMMAND && result0.Commands[k].Command == strmAll[tkOutEnd + 1 + k].Value && result0.Commands[k].NodeType == ast.NodeCommand
 
 //@ func (*Parser).Parse
 //@ requires PInv(p) && SInv() && !strmDone && p.peekCount == 0
